@@ -895,6 +895,8 @@ fn run_batch(entries: &[(String, Case)], st: &mut Stats, findings: &mut Vec<Find
 	let mut b = BatchRequestBuilder::new();
 	// model of what the builder must hold: (method, shape of the params, expectation)
 	let mut model: Vec<(&str, &'static str, Expect)> = Vec::new();
+	// what the oracle says about each accepted entry's params when they are built outside a batch
+	let mut standalone: Vec<Option<String>> = Vec::new();
 	for (i, (method, c)) in entries.iter().enumerate() {
 		let fed = feed(c, IntoBatch { b: &mut b, method: method.as_str() }, st);
 		st.shapes.push(fed.shape);
@@ -911,6 +913,12 @@ fn run_batch(entries: &[(String, Case)], st: &mut Stats, findings: &mut Vec<Find
 					});
 				}
 				model.push((method.as_str(), fed.shape, fed.exp));
+				let mut scratch = Stats::default();
+				let alone = feed(c, Direct, &mut scratch);
+				standalone.push(match &alone.out {
+					Some(built) => judge(alone.shape, &alone.exp, built, "", &mut scratch).map(|f| f.sig),
+					None => None,
+				});
 			}
 			Some(BatchIns::Err(e)) => {
 				if !fed.exp.must_fail {
@@ -1000,7 +1008,17 @@ fn run_batch(entries: &[(String, Case)], st: &mut Stats, findings: &mut Vec<Find
 			st.batch_entries_checked += 1;
 			let what = format!("batch entry #{i} seen through {view_name}");
 			if let Some(f) = judge(pshape, exp, &built_from_opt(p.as_deref()), &what, st) {
-				findings.push(f);
+				if standalone[i].as_deref() == Some(f.sig.as_str()) {
+					// the params themselves are wrong (same anomaly outside a batch)
+					findings.push(f);
+				} else {
+					// the params are fine on their own: the batch builder changed / misplaced them
+					findings.push(Finding {
+						sig: format!("batch-params-differ/{shape}"),
+						detail: format!("the params of a batch entry are not the ones inserted with it: {}", f.detail),
+						observed: f.observed,
+					});
+				}
 			}
 		}
 	}
@@ -1202,7 +1220,7 @@ fn gen_case(r: &mut Rng, allow_batch: bool) -> Case {
 			Case::RpcParams { values: gen_values(r, n, false) }
 		}
 		73..=77 => {
-			let n = r.usize(8);
+			let n = if r.chance(1, 10) { r.usize(40) } else { r.usize(8) };
 			let fail_seq = r.chance(1, 10);
 			let values = match r.below(5) {
 				0 => (0..n).map(|_| Spec::U64(r.next_u64() >> r.below(64))).collect(),
@@ -1213,7 +1231,7 @@ fn gen_case(r: &mut Rng, allow_batch: bool) -> Case {
 			Case::Vec { values }
 		}
 		78..=81 => {
-			let n = r.usize(8);
+			let n = if r.chance(1, 10) { r.usize(40) } else { r.usize(8) };
 			let fail_seq = r.chance(1, 10);
 			let values = match r.below(4) {
 				0 => (0..n).map(|_| Spec::Str(jgen::string(r))).collect(),
@@ -1657,7 +1675,7 @@ fn workload(seed: u64, n_cases: u64, ev: &mut Evidence, agg: &mut Agg) {
 const RULE: &str = "cases = one params value handed to ToRpcParams::to_rpc_params (or to BatchRequestBuilder::insert): insert \
 	sequences of 0..10 generated values into ArrayParams / ObjectParams (40% of the sequences mix in values whose Serialize fails \
 	before or after emitting bytes; 20% clone the builder mid-sequence and build the clone too), rpc_params! with 0..10 good values, \
-	tuples of arity 1..16, Vec, slices, fixed arrays 0..8, serde_json::Map, BTreeMap/HashMap<String,_> fed into ObjectParams, \
+	tuples of arity 1..16, Vec and slices of 0..39 elements, fixed arrays 0..8, serde_json::Map, BTreeMap/HashMap<String,_> fed into ObjectParams, \
 	BatchRequestBuilder with 0..6 entries; plus a fixed list of minimal directed cases. Non-trivial = an output text was parsed and \
 	compared with the oracle values of at least one successfully inserted value, or a result was judged after at least one failed \
 	insert; distinct by the full case description.";
